@@ -7,7 +7,7 @@ for d in seeded/C*/; do
   k=$(basename $d); id=${k%%-*}
   git -C /repo apply /verif/$d/patch.diff 2>/dev/null || { echo "$k: patch does not apply"; continue; }
   ./check $id > /tmp/sr.out 2>&1; rc=$?
-  git -C /repo checkout -- .
+  git -C /repo checkout -- . ; git -C /repo clean -fdq -- src tests
   echo "$k: rc=$rc $(grep -o 'sig=[^ ]*' /tmp/sr.out | head -1 | cut -c1-90)"
 done
 cp /tmp/evid.bak/*.json evidence/
